@@ -5,14 +5,14 @@ primitives of `Frequenz/Model/FormulaSteps.lean`.
 What is checked while extracting (anything unexpected raises, which sends C05/C13 to the failing-input search):
   * `_operator_precedence` is a dict literal {str: int} over exactly the ten known operator strings;
   * each step class's `__repr__` returns the literal the table is indexed with (`repr(prev_step)`);
-  * `FormulaBuilder.push_oper` ends with the if/elif chain  oper == "<s>" -> self._build_stack.append(<Class>())
-    and that chain maps every operator string to the class with that repr (")" pushes nothing);
+  * `FormulaBuilder.push_oper` contains a dispatch (if/elif chain or `match`, any order) operator literal ->
+    self._build_stack.append(<Class>()) that maps every operator string to the class with that repr (")" pushes nothing);
   * each arithmetic `apply` has the shape  pop [pop]; <assignments / if-else>; append(expr)  and uses only
     + - * / unary-, max/min, math.isnan, math.nan / float("nan"), comparisons, and/or/not, numeric literals.
 
-  * `FormulaEvaluator.apply` ends with  res = eval_stack.pop(); if <test on res>: return Sample(ts, None);
-    return Sample(ts, create(res));  the test (isnan / isinf / isfinite, and/or/not) becomes
-    `Extracted.Formula.resultIsNone : FloatClass -> Bool`.
+  * `FormulaEvaluator.apply`: after the last `<x> = <stack>.pop()` the sample's value is either create(<x>) or None;
+    the decision (isnan / isinf / isfinite, and/or/not, if/else in either polarity, early return, local, conditional
+    expression — recovered by symbolic execution) becomes `Extracted.Formula.resultIsNone : FloatClass -> Bool`.
 
 The translated bodies are `Extracted.Formula.bin<Class> : V -> V -> M V` (first argument = the value pushed
 first = `val1`) and `Extracted.Formula.un<Class> : V -> M V`.
@@ -21,6 +21,7 @@ from __future__ import annotations
 
 import ast
 import pathlib
+import re
 
 NAME = "Formula"
 SOURCES = [
@@ -93,35 +94,70 @@ def check_reprs(steps_tree: ast.AST) -> None:
             raise Unsupported(f"{cname}.__repr__ does not return {s!r}")
 
 
-def check_push_oper(engine_tree: ast.AST) -> None:
-    """`push_oper` = `if <guard>: <pop loop>` followed by the dispatch chain oper -> step class.  The chain is
-    checked here; the pop loop is modelled by hand (`Shunting.popLoop`) and tied by the correspondence check."""
-    fn = _method(_find(engine_tree, ast.ClassDef, "FormulaBuilder"), "push_oper")
-    body = _strip_doc(fn.body)
-    if len(body) != 2 or not all(isinstance(b, ast.If) for b in body):
-        raise Unsupported("push_oper: expected `if <guard>: <loop>` followed by the dispatch chain")
-    chain = body[1]
-    seen = {}
-    node: ast.stmt | None = chain
+def _dispatch_pairs(stmt: ast.stmt, param: str) -> dict[str, str] | None:
+    """oper literal -> source of the single statement executed for it, for an if/elif chain `param == "<s>"` or a
+    `match param: case "<s>":` (cases in any order); None when `stmt` is not such a dispatch."""
+    pairs: dict[str, str] = {}
+    if isinstance(stmt, ast.Match):
+        if not (isinstance(stmt.subject, ast.Name) and stmt.subject.id == param):
+            return None
+        for case in stmt.cases:
+            pats = case.pattern.patterns if isinstance(case.pattern, ast.MatchOr) else [case.pattern]
+            if case.guard is not None or len(case.body) != 1:
+                return None
+            for pat in pats:
+                if not (isinstance(pat, ast.MatchValue) and isinstance(pat.value, ast.Constant)):
+                    return None
+                pairs[pat.value.value] = ast.unparse(case.body[0])
+        return pairs
+    node: ast.stmt | None = stmt
     while node is not None:
         if not isinstance(node, ast.If):
-            raise Unsupported("push_oper: dispatch chain has a trailing else")
+            return None
         t = node.test
-        if not (isinstance(t, ast.Compare) and isinstance(t.left, ast.Name) and t.left.id == "oper" and len(t.ops) == 1
-                and isinstance(t.ops[0], ast.Eq) and isinstance(t.comparators[0], ast.Constant)):
-            raise Unsupported("push_oper: dispatch test is not `oper == <literal>`")
-        s = t.comparators[0].value
-        if len(node.body) != 1 or ast.unparse(node.body[0]) != f"self._build_stack.append({STEP_CLASS.get(s, '?')}())":
-            raise Unsupported(f"push_oper: operator {s!r} does not push {STEP_CLASS.get(s)}")
-        seen[s] = True
+        lits: list = []
+        if isinstance(t, ast.Compare) and isinstance(t.left, ast.Name) and t.left.id == param and len(t.ops) == 1:
+            c = t.comparators[0]
+            if isinstance(t.ops[0], ast.Eq) and isinstance(c, ast.Constant):
+                lits = [c.value]
+            elif isinstance(t.ops[0], ast.In) and isinstance(c, (ast.Tuple, ast.List, ast.Set)) \
+                    and all(isinstance(e, ast.Constant) for e in c.elts):
+                lits = [e.value for e in c.elts]
+        if not lits or len(node.body) != 1:
+            return None
+        for lit in lits:
+            pairs[lit] = ast.unparse(node.body[0])
         if len(node.orelse) == 0:
             node = None
         elif len(node.orelse) == 1:
             node = node.orelse[0]
         else:
-            raise Unsupported("push_oper: dispatch chain")
-    if set(seen) != set(STEP_CLASS):
-        raise Unsupported(f"push_oper: dispatch chain covers {sorted(seen)}")
+            return None
+    return pairs
+
+
+def check_push_oper(engine_tree: ast.AST) -> None:
+    """`push_oper` = (pop loop, modelled by hand as `Shunting.popLoop` and tied by the correspondence check) followed
+    by the dispatch operator string -> step class.  The dispatch is located by its role (the statement that tests the
+    operator parameter against literals and pushes step objects), whatever its order or syntax (if/elif, match)."""
+    fn = _method(_find(engine_tree, ast.ClassDef, "FormulaBuilder"), "push_oper")
+    if len(fn.args.args) != 2:
+        raise Unsupported("push_oper signature")
+    param = fn.args.args[1].arg
+    found = None
+    for st in _strip_doc(fn.body):
+        pairs = _dispatch_pairs(st, param)
+        if pairs and any(re.fullmatch(r"self\._build_stack\.append\(\w+\(\)\)", v) for v in pairs.values()):
+            if found is not None:
+                raise Unsupported("push_oper: two dispatch statements")
+            found = pairs
+    if found is None:
+        raise Unsupported("push_oper: no dispatch `operator literal -> self._build_stack.append(<Step>())` found")
+    for lit, src in found.items():
+        if src != f"self._build_stack.append({STEP_CLASS.get(lit, '?')}())":
+            raise Unsupported(f"push_oper: operator {lit!r} does not push {STEP_CLASS.get(lit)} ({src})")
+    if set(found) != set(STEP_CLASS):
+        raise Unsupported(f"push_oper: dispatch covers {sorted(found)}")
 
 
 # ---------------------------------------------------------------- step bodies
@@ -291,30 +327,58 @@ def translate_step(steps_tree: ast.AST, cname: str, arity: int) -> str:
 
 # ---------------------------------------------------------------- tokenizer character classes
 def tokenizer_chars(tok_src: str) -> tuple[list[str], list[str], str]:
+    """The character classes of `Tokenizer.__next__`, by role: the test whose branch skips the character (`continue`)
+    = whitespace, the one that returns an OPER token = operators, the one that returns a COMPONENT_METRIC token = marker."""
     tree = ast.parse(tok_src)
     fn = _method(_find(tree, ast.ClassDef, "Tokenizer"), "__next__")
-    tuples = []
-    hashes = []
+    roles: dict[str, list[str]] = {}
+
+    def chars_of(test: ast.expr) -> list[str] | None:
+        if isinstance(test, ast.Compare) and isinstance(test.left, ast.Name) and len(test.ops) == 1:
+            c = test.comparators[0]
+            if isinstance(test.ops[0], ast.In) and isinstance(c, (ast.Tuple, ast.List, ast.Set)) \
+                    and all(isinstance(e, ast.Constant) for e in c.elts):
+                return [e.value for e in c.elts]
+            if isinstance(test.ops[0], ast.In) and isinstance(c, ast.Constant) and isinstance(c.value, str):
+                return list(c.value)
+            if isinstance(test.ops[0], ast.Eq) and isinstance(c, ast.Constant):
+                return [c.value]
+        return None
+
     for n in ast.walk(fn):
-        if isinstance(n, ast.Compare) and isinstance(n.left, ast.Name) and n.left.id == "char" and len(n.ops) == 1:
-            c = n.comparators[0]
-            if isinstance(n.ops[0], ast.In) and isinstance(c, ast.Tuple) and all(isinstance(e, ast.Constant) for e in c.elts):
-                tuples.append([e.value for e in c.elts])
-            elif isinstance(n.ops[0], ast.Eq) and isinstance(c, ast.Constant):
-                hashes.append(c.value)
-    if len(tuples) != 2 or len(hashes) != 1:
-        raise Unsupported("Tokenizer.__next__: expected two `char in (...)` tests and one `char == ...` test")
-    ws, ops = tuples
-    if set(ops) != {"+", "-", "*", "/", "(", ")"}:
-        raise Unsupported(f"Tokenizer operator characters changed: {ops}")
-    for ch in ws + ops + hashes:
+        if not isinstance(n, ast.If):
+            continue
+        chars = chars_of(n.test)
+        if chars is None:
+            continue
+        body = ast.unparse(ast.Module(body=n.body, type_ignores=[]))
+        if len(n.body) == 1 and isinstance(n.body[0], ast.Continue):
+            role = "ws"
+        elif "TokenType.OPER" in body and any(isinstance(x, ast.Return) for x in n.body):
+            role = "oper"
+        elif "TokenType.COMPONENT_METRIC" in body and any(isinstance(x, ast.Return) for x in n.body):
+            role = "metric"
+        else:
+            raise Unsupported(f"Tokenizer.__next__: character test with an unknown role: {ast.unparse(n.test)}")
+        if role in roles:
+            raise Unsupported(f"Tokenizer.__next__: two tests with role {role}")
+        roles[role] = chars
+    if set(roles) != {"ws", "oper", "metric"} or len(roles["metric"]) != 1:
+        raise Unsupported(f"Tokenizer.__next__: character classes found: {sorted(roles)}")
+    ws, ops, hash_ = roles["ws"], roles["oper"], roles["metric"][0]
+    for ch in ws + ops + [hash_]:
         if not (isinstance(ch, str) and len(ch) == 1):
             raise Unsupported("Tokenizer.__next__: non single-character literal")
-    return ws, ops, hashes[0]
+    if set(ops) != {"+", "-", "*", "/", "(", ")"}:
+        raise Unsupported(f"Tokenizer operator characters changed: {ops}")
+    return ws, sorted(ops, key="+-*/()".index), hash_
 
 
 # ---------------------------------------------------------------- the final test of FormulaEvaluator.apply
 def final_test(evaluator_src: str) -> str:
+    """`FormulaEvaluator.apply`: the value popped last from the evaluation stack either becomes the sample's value or
+    is replaced by None.  The decision is recovered by symbolic execution of the statements after the pop (if/else in
+    either polarity, early return, a local holding the value, conditional expression) — names do not matter."""
     tree = ast.parse(evaluator_src)
     fn = None
     for n in ast.walk(_find(tree, ast.ClassDef, "FormulaEvaluator")):
@@ -323,18 +387,18 @@ def final_test(evaluator_src: str) -> str:
     if fn is None:
         raise Unsupported("FormulaEvaluator.apply not found")
     body = _strip_doc(fn.body)
-    if len(body) < 3:
-        raise Unsupported("FormulaEvaluator.apply: too short")
-    pop, test, ret = body[-3], body[-2], body[-1]
-    if not (isinstance(pop, ast.Assign) and len(pop.targets) == 1 and isinstance(pop.targets[0], ast.Name)
-            and ast.unparse(pop.value) == "eval_stack.pop()"):
-        raise Unsupported("FormulaEvaluator.apply: expected `res = eval_stack.pop()` before the final test")
-    res = pop.targets[0].id
-    if not (isinstance(test, ast.If) and not test.orelse and len(test.body) == 1 and isinstance(test.body[0], ast.Return)
-            and ast.unparse(test.body[0].value) == "Sample(metric_ts, None)"):
-        raise Unsupported("FormulaEvaluator.apply: expected `if <test>: return Sample(metric_ts, None)`")
-    if not (isinstance(ret, ast.Return) and ast.unparse(ret.value) == f"Sample(metric_ts, self._create_method({res}))"):
-        raise Unsupported("FormulaEvaluator.apply: expected `return Sample(metric_ts, self._create_method(res))`")
+    idx = None
+    for k, st in enumerate(body):
+        if isinstance(st, (ast.Assign, ast.AnnAssign)) and st.value is not None and isinstance(st.value, ast.Call) \
+                and isinstance(st.value.func, ast.Attribute) and st.value.func.attr == "pop" and not st.value.args:
+            tgt = st.targets[0] if isinstance(st, ast.Assign) else st.target
+            if isinstance(tgt, ast.Name):
+                idx, res = k, tgt.id
+    if idx is None:
+        raise Unsupported("FormulaEvaluator.apply: no `<result> = <stack>.pop()`")
+
+    def uses_res(e: ast.expr) -> bool:
+        return any(isinstance(x, ast.Name) and x.id == res for x in ast.walk(e))
 
     def cond(n: ast.expr) -> str:
         if isinstance(n, ast.BoolOp):
@@ -344,15 +408,55 @@ def final_test(evaluator_src: str) -> str:
             return f"(!{cond(n.operand)})"
         if isinstance(n, ast.Call) and len(n.args) == 1 and isinstance(n.args[0], ast.Name) and n.args[0].id == res \
                 and not n.keywords:
-            f = ast.unparse(n.func)
             prim = {"isnan": "isnanC", "math.isnan": "isnanC", "isinf": "isinfC", "math.isinf": "isinfC",
-                    "isfinite": "isfiniteC", "math.isfinite": "isfiniteC"}.get(f)
+                    "isfinite": "isfiniteC", "math.isfinite": "isfiniteC"}.get(ast.unparse(n.func))
             if prim:
                 return f"(PyF.{prim} res)"
         raise Unsupported(f"final test {ast.unparse(n)!r}")
 
+    # symbolic values: "true" (replaced by None), "false" (the value is emitted), or a Lean Bool term
+    def value(e: ast.expr, env: dict[str, str]) -> str:
+        if isinstance(e, ast.Constant) and e.value is None:
+            return "true"
+        if isinstance(e, ast.Name) and e.id in env:
+            return env[e.id]
+        if isinstance(e, ast.IfExp):
+            return f"(if {cond(e.test)} then {value(e.body, env)} else {value(e.orelse, env)})"
+        if isinstance(e, ast.Call) and len(e.args) == 1 and isinstance(e.args[0], ast.Name) and e.args[0].id == res:
+            return "false"   # create_method(res)
+        raise Unsupported(f"FormulaEvaluator.apply: sample value {ast.unparse(e)!r}")
+
+    def run(stmts: list[ast.stmt], env: dict[str, str]) -> str | None:
+        """Bool term for `the returned sample has value None`, or None when the statements fall through."""
+        for k, st in enumerate(stmts):
+            if isinstance(st, ast.Return):
+                v = st.value
+                if not (isinstance(v, ast.Call) and ast.unparse(v.func) == "Sample" and len(v.args) == 2):
+                    raise Unsupported(f"FormulaEvaluator.apply: {ast.unparse(st)!r}")
+                return value(v.args[1], env)
+            if isinstance(st, (ast.Assign, ast.AnnAssign)):
+                tgt = st.targets[0] if isinstance(st, ast.Assign) else st.target
+                if not isinstance(tgt, ast.Name) or st.value is None:
+                    raise Unsupported(f"FormulaEvaluator.apply: {ast.unparse(st)!r}")
+                env = dict(env)
+                env[tgt.id] = value(st.value, env)
+                continue
+            if isinstance(st, ast.If):
+                rest = stmts[k + 1:]
+                c = cond(st.test)
+                a = run(st.body + rest, env)
+                b = run(st.orelse + rest, env)
+                if a is None or b is None:
+                    raise Unsupported("FormulaEvaluator.apply: a path without return")
+                return f"(if {c} then {a} else {b})"
+            raise Unsupported(f"FormulaEvaluator.apply: {ast.unparse(st)!r}")
+        return None
+
+    term = run(body[idx + 1:], {})
+    if term is None:
+        raise Unsupported("FormulaEvaluator.apply: no return after the pop")
     return ("/-- The final test of `FormulaEvaluator.apply`: is the result replaced by `None`? -/\n"
-            f"def Extracted.Formula.resultIsNone (res : FloatClass) : Bool := {cond(test.test)}\n")
+            f"def Extracted.Formula.resultIsNone (res : FloatClass) : Bool := {term}\n")
 
 
 def _lean_char(c: str) -> str:
